@@ -1,11 +1,17 @@
 #!/venv/bin/python
-"""setup: full .vo build of the Coq development from the files on disk (offline)."""
-import os, sys
-sys.path.insert(0, os.path.join(os.path.dirname(os.path.dirname(os.path.abspath(__file__))), 'harness'))
+"""setup: full .vo build (never -vos) of the Coq development behind every claimed property, from the
+files on disk (offline).  Files of properties that are not claimed in MANIFEST.json are not built."""
+import json, os, sys
+HERE = os.path.dirname(os.path.dirname(os.path.abspath(__file__)))
+sys.path.insert(0, os.path.join(HERE, 'harness'))
 import common
-ok, log = common.coq_build(None, timeout=3000)
+claimed = [c['property_id'] for c in json.load(open(os.path.join(HERE, 'MANIFEST.json')))['checks']]
+targets = ['Properties/%s.vo' % p for p in claimed]
+ok, log = common.coq_build(targets, timeout=3000)
 print(log[-3000:])
-hits = common.forbidden_scan()
+hits = []
+for p in claimed:
+    hits += common.forbidden_scan(p)
 if hits:
-    print('forbidden constructs:', hits)
+    print('forbidden constructs:', sorted(set(hits)))
 sys.exit(0 if ok and not hits else 1)
